@@ -217,8 +217,9 @@ Definition chunking_independent_statement : Prop :=
      parse_stream b utf8 max_parts max_mem chunks1 = parse_stream b utf8 max_parts max_mem chunks2).
 
 (* The full property also covers names and filenames outside ASCII (any text without double quote,
-   backslash, CR and LF, sent in the request's charset).  That part is covered by the correspondence
-   check only; the statement is kept here. *)
+   backslash, CR and LF, sent in the request's charset).  The statement was laid down here before it
+   could be proved; it is now theorem C01_full_holds of Properties.v, a consequence of the stronger
+   C01_main ([C01_main_text_statement] below: event level, header values as text as well). *)
 Definition text_char (c : N) : bool :=
   negb (N.eqb c DQUOTE) && negb (N.eqb c BSLASH) && negb (N.eqb c CR) && negb (N.eqb c LF).
 
@@ -257,6 +258,116 @@ Definition C01_full : Prop :=
                  | IFile _ _ _ c => c = f_content f
                  end) fields items.
 
+(* ---------- names, filenames and header values as TEXT in the request's charset ----------
+
+   A name or filename is any text without double quote, backslash, CR and LF ([text_char]; NUL and
+   every other control character, every character str.isspace / str.splitlines know, every code point the
+   charset can carry are allowed: [encode_text] is defined exactly for the sequences of Unicode scalar
+   values when the charset is UTF-8, and for the texts below U+0100 when it is Latin-1).
+
+   A header value is any text without CR and LF that str.strip() leaves alone: _parse_headers strips the
+   decoded value, so a value whose first or last character satisfies str.isspace (U+001C..U+0020,
+   U+0085, U+00A0, U+2028, ... [is_uspace]) comes back shorter — leading and trailing white space is not
+   part of a header value.  The empty value is allowed.  Header names stay visible ASCII ([hname_ok]). *)
+
+Definition tname_ok (s : list N) : bool := forallb text_char s.
+Definition tfilename_ok (f : option (list N)) : bool := match f with Some s => tname_ok s | None => true end.
+
+Definition tvalue_ok (v : list N) : bool :=
+  no_crlf v &&
+  match v with c :: _ => negb (is_uspace c) | [] => true end &&
+  match rev v with c :: _ => negb (is_uspace c) | [] => true end.
+
+Definition textra_ok (kv : header) : bool := hname_ok (fst kv) && tvalue_ok (snd kv).
+
+Definition encode_opt (utf8 : bool) (f : option (list N)) : option (option bytes) :=
+  match f with
+  | None => Some None
+  | Some s => match encode_text utf8 s with Some b => Some (Some b) | None => None end
+  end.
+
+(* header names are ASCII and stand for themselves; the values are encoded *)
+Fixpoint encode_extra (utf8 : bool) (extra : list header) : option (list header) :=
+  match extra with
+  | [] => Some []
+  | kv :: r =>
+      match encode_text utf8 (snd kv), encode_extra utf8 r with
+      | Some vb, Some rb => Some ((fst kv, vb) :: rb)
+      | _, _ => None
+      end
+  end.
+
+(* decode_headers for text: [name], [filename], the values of [extra] are text; [nb], [fb], [eb] their
+   encodings, from which the block is rendered; the event carries the text *)
+Definition decode_headers_text_statement : Prop :=
+  forall (utf8 : bool) (name : list N) (filename : option (list N)) (extra : list header)
+         (nb : bytes) (fb : option bytes) (eb : list header),
+    tname_ok name = true -> tfilename_ok filename = true -> forallb textra_ok extra = true ->
+    encode_text utf8 name = Some nb -> encode_opt utf8 filename = Some fb -> encode_extra utf8 extra = Some eb ->
+    parse_part utf8 (render_headers nb fb eb) = PEvent (rendered_event name filename extra) /\
+    hdr_ok utf8 (render_headers nb fb eb) = true.
+
+(* a form as the application sees it, names as text *)
+Record tfield := { t_name : list N; t_filename : option (list N); t_extra : list header; t_content : bytes }.
+
+Definition tfield_ok (b : bytes) (f : tfield) : bool :=
+  tname_ok (t_name f) && tfilename_ok (t_filename f) && forallb textra_ok (t_extra f) &&
+  negb (has_sub (dashes b) (t_content f)).
+
+(* None: the charset cannot carry one of the names (a surrogate or a value above U+10FFFF for UTF-8,
+   a character above U+00FF for Latin-1) *)
+Definition encode_field (utf8 : bool) (f : tfield) : option field :=
+  match encode_text utf8 (t_name f), encode_opt utf8 (t_filename f), encode_extra utf8 (t_extra f) with
+  | Some n, Some fn, Some e => Some {| f_name := n; f_filename := fn; f_extra := e; f_content := t_content f |}
+  | _, _, _ => None
+  end.
+
+Fixpoint encode_fields (utf8 : bool) (fs : list tfield) : option (list field) :=
+  match fs with
+  | [] => Some []
+  | f :: r =>
+      match encode_field utf8 f, encode_fields utf8 r with
+      | Some fb, Some rb => Some (fb :: rb)
+      | _, _ => None
+      end
+  end.
+
+Definition tfield_event (f : tfield) : event := rendered_event (t_name f) (t_filename f) (t_extra f).
+Definition tfield_done (f : tfield) : pitem := PDone (tfield_event f) (t_content f).
+Definition tfield_item (utf8 : bool) (f : tfield) : item := item_of utf8 (tfield_event f) (t_content f).
+
+Definition tform_ok (b pre : bytes) (first_crlf : bool) (fields : list tfield) : bool :=
+  no_crlf b && negb (has_sub (dashes b) pre) &&
+  (first_crlf || match pre with [] => true | _ => false end) &&
+  forallb (tfield_ok b) fields.
+
+(* the property: every chunking of the encoded form yields exactly the parts (names, filenames, header
+   values as the text that was encoded) at the event level, and exactly the items from the helper *)
+Definition C01_main_text_statement : Prop :=
+  forall (b : bytes) (utf8 : bool) (pre : bytes) (first_crlf : bool) (tfields : list tfield) (fields : list field)
+         (epi : bytes) (max_parts : nat) (max_mem : option nat) (chunks : list bytes),
+    tform_ok b pre first_crlf tfields = true ->
+    encode_fields utf8 tfields = Some fields ->
+    concat chunks = form_body b pre first_crlf fields epi ->
+    collect (all_events (run_chunks b utf8 new_decoder chunks)) None = map tfield_done tfields ++ [PEpi] /\
+    (limits_ok max_parts max_mem fields ->
+     parse_stream b utf8 max_parts max_mem chunks = HItems (map (tfield_item utf8) tfields)).
+
+(* the text of a field (a part without filename): the content decoded in the request's charset; when the
+   charset is UTF-8 and the content is not valid UTF-8, every byte read as the character of the same
+   number (Latin-1), which is also what the Latin-1 charset gives *)
+Definition field_text_statement : Prop :=
+  forall (f : tfield), t_filename f = None ->
+    (forall t, Lib.Utf8.utf8 t = Some (t_content f) -> tfield_item true f = IText (Some (t_name f)) t) /\
+    ((forall t, Lib.Utf8.utf8 t <> Some (t_content f)) -> tfield_item true f = IText (Some (t_name f)) (t_content f)) /\
+    tfield_item false f = IText (Some (t_name f)) (t_content f).
+
+(* the codec: the strict decoder of Model.v inverts the encoder, and accepts nothing but encodings *)
+Definition utf8_codec_statement : Prop :=
+  (forall s b, Lib.Utf8.utf8 s = Some b -> utf8_decode (length b) b = Some s) /\
+  (forall b s, utf8_decode (length b) b = Some s -> Lib.Utf8.utf8 s = Some b) /\
+  (forall s b, Lib.Utf8.utf8 s = Some b -> forall x, In x b -> In x s \/ (128 <= x)%N).
+
 (* ---------- a concrete instance used by the non-vacuity examples of Properties.v ---------- *)
 
 Definition ex_b : bytes := [45; 45; 98]%N.
@@ -268,3 +379,18 @@ Definition ex_fields : list field :=
 Fixpoint ex_bytewise (s : bytes) : list bytes :=
   match s with [] => [[]] | x :: r => [x] :: [] :: ex_bytewise r end.
 
+
+Definition ex_tfield1 : tfield :=
+  {| t_name := [97; 0; 8364; 8232]%N; t_filename := Some [133; 102; 128512]%N;
+     t_extra := [([67; 45; 84]%N, [233; 59; 12288; 120]%N)];
+     t_content := [13; 10; 45; 45; 45; 13; 10; 255; 45; 120; 13]%N |}.
+Definition ex_tfield2 : tfield :=
+  {| t_name := [11; 160]%N; t_filename := None; t_extra := []; t_content := [10; 13; 195; 169; 45]%N |}.
+Definition ex_tfields : list tfield := [ex_tfield1; ex_tfield2].
+Definition ex_tfields_utf8 : list field :=
+  [ {| f_name := [97; 0; 226; 130; 172; 226; 128; 168]%N; f_filename := Some [194; 133; 102; 240; 159; 152; 128]%N;
+       f_extra := [([67; 45; 84]%N, [195; 169; 59; 227; 128; 128; 120]%N)];
+       f_content := [13; 10; 45; 45; 45; 13; 10; 255; 45; 120; 13]%N |};
+    {| f_name := [11; 194; 160]%N; f_filename := None; f_extra := []; f_content := [10; 13; 195; 169; 45]%N |} ].
+Definition ex_tfield2_latin1 : field :=
+  {| f_name := [11; 160]%N; f_filename := None; f_extra := []; f_content := [10; 13; 195; 169; 45]%N |}.
